@@ -6,6 +6,21 @@ ROOT = "/verif"
 
 # id -> (engine, category, technique, level text, level note, design ref)
 CHECKS = {
+    "C13": ("loopmc", "model_checking",
+            "typed Vec/tuple lists of distinguishable probe commands executed through the real Client::command_list under the controlled scheduler (all schedules within a deviation bound), framing and positional pairing checked against the simulated server's transcript; raw list rendering enumerated over every build recipe",
+            "Typed Vec lists of length 0..5 and tuples of every arity 1..8 of commands whose reply identifies their position are run through the real client (second caller, and for three shapes a notification and a split, all schedules within the bound): N>=2 written as one command_list_ok_begin..command_list_end block with the N lines in order, N=1 as the bare line, N=0 nothing written and an empty result, i-th typed result decoded from the i-th frame; raw lists of 1..6 commands built by every mix of new/command/add/extend render to exactly N+2 (or 1) lines.",
+            "Trusted: mpdref::server's list handling (list_OK per command).",
+            "DESIGN.md section 4 C13"),
+    "C17": ("loopmc", "model_checking",
+            "exhaustive parameter grid (size x chunk limit x source x MIME x every ACK code) executed through the real Client::album_art against a simulated server holding the picture, plus schedule exploration with a second caller and notifications between chunk requests",
+            "Every grid point is run on the real client: returned bytes and MIME equal the stored picture, request lines are readpicture|albumart <uri> <offset> with offsets = bytes returned so far and exactly ceil(size/limit) (min 1) requests, fallback to albumart exactly on an empty reply or ACK 5, None when neither has data, any other ACK returned with its code; two grid points under all schedules within the deviation bound with interleaved caller and notification.",
+            "Trusted: mpdref::server's readpicture/albumart model.",
+            "DESIGN.md section 4 C17"),
+    "C18": ("loopmc+segmc", "model_checking",
+            "protocol half: exhaustive enumeration of greetings x truncations x all segmentations on both connection flavours against a reference greeting grammar; client half: all splits of greeting and password verdict, every verdict (OK, 6 ACK codes, close at every offset, garbage, read error) explored on the real Client::connect* under the controlled scheduler",
+            "Greetings `OK MPD `+version over 7 byte classes up to length 3/4, wrong prefixes and overlong versions, truncated at every position, under all compositions (<=13/16 bytes) or <=2 cuts: success iff valid, version verbatim, InvalidMessage for malformed, UnexpectedEof for proper prefixes. Client: first line is `password <pw>` (tokenized), no idle before the verdict was read, IncorrectPassword on any ACK with nothing further written, protocol error on close/garbage/read error inside the handshake, ordinary legal session afterwards.",
+            "Trusted: mpdref::wire::ref_greeting, mpdref::server's password model; the greeting is never delivered in the same read as later bytes.",
+            "DESIGN.md section 4 C18"),
     "C14": ("enum", "model_checking",
             "bounded-exhaustive enumeration of abstract song listings (every ordered selection of <=3/4 attribute/tag lines per song; all listings of <=3/4 entries over 10 entry kinds) encoded, parsed by the real parser and decoded by every song-listing command, compared with the abstract listing",
             "One-song listings with every ordered selection of <=3/4 of 13 line kinds (both orders of Time/duration, two Range forms, repeated tags, unknown tags) and all listings of 0..3/4 entries over 6 song shapes plus directory / playlist entries with and without their own Last-Modified, decoded by playlistinfo, playlistinfo RANGE, currentsong, find, listplaylistinfo, listallinfo: one song per file entry in order with exactly the listed URL, duration (duration wins over Time), position/id/priority/range, format, last-modified and per-tag value lists.",
